@@ -1134,7 +1134,9 @@ func (c *FuncCtx) evalArgs(st *State, sig *types.Signature, x *ast.CallExpr) []*
 			}
 		}
 		if fl, ok := ast.Unparen(a).(*ast.FuncLit); ok {
-			v = &Val{T: params.At(i).Type(), S: c.fresh("closure", "Int"), Sort: "Int", Closure: fl}
+			cl := c.fresh("closure", "Int")
+			st.assume(app("<", "0", cl))
+			v = &Val{T: params.At(i).Type(), S: cl, Sort: "Int", Closure: fl}
 		} else {
 			v = c.coerce(st, c.eval(st, a), params.At(i).Type())
 		}
